@@ -1,5 +1,993 @@
-//! Controlled scheduler (placeholder until schedx is wired in).
+//! Controlled scheduler: strict alternation of managed threads at gates.
+//!
+//! Managed threads (harness caller/reader threads and the store's real
+//! `FlushWorker` threads) park at gates — `verif-hooks` probe points and
+//! interposed file-system calls — after announcing their next transition.
+//! The scheduler (the thread that called `run_execution`) waits until every
+//! live managed thread is parked, computes the enabled set, asks the
+//! `Chooser` which transition to run, grants it and repeats.
 
+use std::collections::VecDeque;
+use std::sync::atomic::AtomicBool;
+use std::sync::atomic::Ordering;
+use std::sync::Arc;
+use std::sync::Condvar;
+use std::sync::Mutex;
+use std::sync::MutexGuard;
+use std::time::Duration;
+use std::time::Instant;
+
+use crate::interpose;
+use crate::interpose::Fault;
+use crate::interpose::FsCall;
+use crate::interpose::FsKind;
 use crate::vt::AckEvent;
 
-pub fn on_ack(_ev: &AckEvent) {}
+static ACTIVE: AtomicBool = AtomicBool::new(false);
+
+pub fn active() -> bool {
+    ACTIVE.load(Ordering::Acquire)
+}
+
+// ---- resources -------------------------------------------------------------
+
+pub const R_CHAN: u32 = 1;
+pub const R_CACHE: u32 = 2;
+pub const R_ACK: u32 = 4;
+pub const R_DONE: u32 = 8;
+pub const R_DIR: u32 = 16;
+pub const R_LOCK: u32 = 32;
+/// worker parked at recv / caller waiting for an idle worker
+pub const R_IDLE: u32 = 64;
+pub const R_ALL: u32 = 1 << 31;
+
+#[derive(Clone, Debug, Default, PartialEq, Eq)]
+pub struct Res {
+    pub bits: u32,
+    pub files: Vec<String>,
+}
+
+impl Res {
+    pub fn bits(b: u32) -> Res {
+        Res { bits: b, files: vec![] }
+    }
+    pub fn independent(&self, o: &Res) -> bool {
+        if (self.bits | o.bits) & R_ALL != 0 {
+            return false;
+        }
+        if self.bits & o.bits != 0 {
+            return false;
+        }
+        !self.files.iter().any(|f| o.files.contains(f))
+    }
+}
+
+// ---- transitions -----------------------------------------------------------
+
+#[derive(Clone, Debug, PartialEq, Eq)]
+pub enum Point {
+    Hook(&'static str, u64),
+    Fs(FsKind, String),
+    /// harness-level operation boundary; the string is the op's label
+    Op(String, OpGate),
+}
+
+#[derive(Clone, Debug, PartialEq, Eq)]
+pub enum OpGate {
+    Always,
+    WaitAck(u64),
+    WaitIdle(usize),
+}
+
+#[derive(Clone, Debug)]
+pub struct Pending {
+    pub point: Point,
+    pub res: Res,
+    pub call: Option<FsCall>,
+}
+
+impl Pending {
+    pub fn label(&self) -> String {
+        match &self.point {
+            Point::Hook(p, a) => format!("{}({})", p, a),
+            Point::Fs(k, n) => format!("{:?}({})", k, n),
+            Point::Op(s, _) => format!("op:{}", s),
+        }
+    }
+}
+
+#[derive(Clone, Copy, Debug, PartialEq, Eq)]
+pub enum TState {
+    Starting,
+    Running,
+    Parked,
+    Blocked,
+    Finished,
+}
+
+#[derive(Clone, Copy, Debug, PartialEq, Eq)]
+pub enum ThreadKind {
+    Caller,
+    Reader,
+    Worker,
+    Contender,
+}
+
+pub struct Slot {
+    pub state: TState,
+    pub kind: ThreadKind,
+    pub inst: usize,
+    pub pending: Option<Pending>,
+    grant: Option<Fault>,
+    cv: Arc<Condvar>,
+    /// extra resource bits added to every transition of this thread (set by
+    /// the harness around open/drop operations)
+    pub extra_bits: u32,
+    running_since: Instant,
+}
+
+#[derive(Clone, Debug)]
+pub enum Event {
+    Step { tid: usize, label: String, fault: Fault },
+    Fs { tid: usize, call: FsCall, ret: i64, errno: i32 },
+    Hook { tid: usize, point: &'static str, a: u64 },
+    Ack(AckEvent),
+    OpStart { tid: usize, idx: usize },
+    OpEnd { tid: usize, idx: usize, ok: bool, info: String },
+    Note(String),
+}
+
+#[derive(Default)]
+pub struct Inner {
+    pub slots: Vec<Slot>,
+    pub trace: Vec<Event>,
+    /// per instance: kinds of the queued requests, oldest first
+    pub queues: Vec<VecDeque<u64>>,
+    pub sender_dropped: Vec<bool>,
+    pub worker_of_inst: Vec<Option<usize>>,
+    pub worker_failed: Vec<bool>,
+    /// id announced by `worker.spawn` -> slot awaiting the matching `worker.start`
+    pending_starts: VecDeque<(u64, usize)>,
+    pub degraded: bool,
+    pub violations: Vec<crate::report::Violation>,
+    pub notes: Vec<String>,
+    chooser: Option<ChooserPtr>,
+    over: bool,
+    deadlock: Option<String>,
+    draining: bool,
+    steps: usize,
+    pendings: Vec<Vec<(usize, Pending)>>,
+}
+
+#[derive(Clone, Copy)]
+struct ChooserPtr(*mut dyn Chooser);
+// only dereferenced under the scheduler lock while run_execution is active
+unsafe impl Send for ChooserPtr {}
+
+static INNER: Mutex<Option<Inner>> = Mutex::new(None);
+static CV_SCHED: Condvar = Condvar::new();
+
+fn lock() -> MutexGuard<'static, Option<Inner>> {
+    match INNER.lock() {
+        Ok(g) => g,
+        Err(p) => p.into_inner(),
+    }
+}
+
+pub fn with_inner<R>(f: impl FnOnce(&mut Inner) -> R) -> Option<R> {
+    let mut g = lock();
+    g.as_mut().map(f)
+}
+
+// ---- thread side -------------------------------------------------------------
+
+/// Parks the calling managed thread until the scheduler grants `p`.
+pub fn gate(tid: usize, mut p: Pending) -> Fault {
+    let mut g = lock();
+    let cv = {
+        let Some(inner) = g.as_mut() else { return Fault::None };
+        let Some(slot) = inner.slots.get_mut(tid) else { return Fault::None };
+        p.res.bits |= slot.extra_bits;
+        // The caller touches the payload cache in the first segment of an
+        // operation (apply/insert/evict, stat) and, for reads, between the
+        // preads; those are tagged by the op gate / extra_bits. Its other
+        // segments (chunk creation, head write, channel sends) do not.
+        if matches!(slot.kind, ThreadKind::Caller | ThreadKind::Reader) && matches!(p.point, Point::Op(..)) {
+            p.res.bits |= R_CACHE;
+        }
+        slot.pending = Some(p);
+        slot.state = TState::Parked;
+        slot.grant = None;
+        slot.cv.clone()
+    };
+    // baton passing: whoever parks last makes the scheduling decision, so a
+    // thread that is chosen again continues without any context switch
+    if let Some(inner) = g.as_mut() {
+        decide(inner);
+    }
+    loop {
+        {
+            let Some(inner) = g.as_mut() else { return Fault::None };
+            let slot = &mut inner.slots[tid];
+            if let Some(f) = slot.grant.take() {
+                slot.state = TState::Running;
+                slot.running_since = Instant::now();
+                slot.pending = None;
+                return f;
+            }
+        }
+        g = match cv.wait(g) {
+            Ok(g) => g,
+            Err(p) => p.into_inner(),
+        };
+    }
+}
+
+/// Makes one scheduling decision if every live managed thread is parked or
+/// finished. Called (under the lock) by whichever thread parks or finishes.
+fn decide(inner: &mut Inner) {
+    if inner.over {
+        return;
+    }
+    if inner.slots.iter().any(|s| matches!(s.state, TState::Starting | TState::Running)) {
+        return;
+    }
+    // somebody already holds a grant it has not picked up yet
+    if inner.slots.iter().any(|s| s.grant.is_some()) {
+        return;
+    }
+    let Some(chp) = inner.chooser else { return };
+    // SAFETY: the pointer is set by run_execution for the duration of the
+    // execution, which outlives every managed thread's use, and is only
+    // dereferenced under the scheduler lock.
+    let chooser: &mut dyn Chooser = unsafe { &mut *chp.0 };
+    let enabled = enabled_now(inner, chooser);
+    if enabled.is_empty() {
+        let unfinished: Vec<String> = inner
+            .slots
+            .iter()
+            .enumerate()
+            .filter(|(_, s)| s.state != TState::Finished)
+            .map(|(t, s)| format!("t{}:{:?}:{:?}:{}", t, s.kind, s.state, s.pending.as_ref().map(|p| p.label()).unwrap_or_default()))
+            .collect();
+        if unfinished.is_empty() {
+            inner.over = true;
+        } else if inner.slots.iter().any(|s| s.state == TState::Blocked) {
+            // blocked threads may still come back; the supervisor times this out
+        } else {
+            inner.deadlock = Some(unfinished.join(" "));
+            inner.over = true;
+        }
+        CV_SCHED.notify_all();
+        return;
+    }
+    let choice = if inner.draining { Some(0) } else { chooser.choose(inner.steps, &enabled) };
+    let idx = match choice {
+        Some(i) => i,
+        None => {
+            inner.draining = true;
+            0
+        }
+    };
+    inner.pendings.push(
+        inner
+            .slots
+            .iter()
+            .enumerate()
+            .filter(|(_, s)| s.state == TState::Parked)
+            .filter_map(|(t, s)| s.pending.clone().map(|p| (t, p)))
+            .collect(),
+    );
+    let e = &enabled[idx];
+    let tid = e.tid;
+    let inst = inner.slots[tid].inst;
+    match inner.slots[tid].pending.as_ref().map(|p| p.point.clone()) {
+        Some(Point::Hook("worker.recv", _)) => {
+            inner.queues[inst].pop_front();
+        }
+        Some(Point::Hook("caller.send", k)) => inner.queues[inst].push_back(k),
+        _ => {}
+    }
+    inner.trace.push(Event::Step { tid, label: e.label.clone(), fault: e.fault });
+    let slot = &mut inner.slots[tid];
+    slot.grant = Some(e.fault);
+    slot.cv.notify_all();
+    inner.steps += 1;
+}
+
+pub fn fs_gate(tid: usize, call: &FsCall) -> Fault {
+    let res = match call.kind {
+        FsKind::Create | FsKind::Unlink => Res { bits: R_DIR, files: vec![call.name.clone()] },
+        FsKind::Opendir => Res::bits(R_DIR),
+        FsKind::Open => {
+            if call.name == "LOCK" {
+                Res::bits(R_LOCK | R_DIR)
+            } else {
+                Res::bits(R_DIR)
+            }
+        }
+        FsKind::Flock | FsKind::Close => Res::bits(R_LOCK),
+        _ => Res { bits: 0, files: vec![call.name.clone()] },
+    };
+    gate(tid, Pending { point: Point::Fs(call.kind.clone(), call.name.clone()), res, call: Some(call.clone()) })
+}
+
+pub fn fs_done(tid: usize, call: FsCall, ret: i64, errno: i32) {
+    with_inner(|i| i.trace.push(Event::Fs { tid, call, ret, errno }));
+}
+
+pub fn on_ack(ev: &AckEvent) {
+    if !active() || interpose::managed_tid().is_none() {
+        return;
+    }
+    with_inner(|i| i.trace.push(Event::Ack(ev.clone())));
+}
+
+pub fn note(s: String) {
+    with_inner(|i| i.trace.push(Event::Note(s)));
+}
+
+/// The probe installed into raft-log's verif-hooks.
+pub struct HookProbe;
+
+impl raft_log::verif_hooks::Probe for HookProbe {
+    fn at(&self, point: &'static str, a: u64) {
+        if !active() {
+            return;
+        }
+        let tid = interpose::managed_tid();
+        match point {
+            "worker.spawn" => {
+                let Some(parent) = tid else { return };
+                with_inner(|i| {
+                    let inst = i.queues.len();
+                    i.queues.push(VecDeque::new());
+                    i.sender_dropped.push(false);
+                    i.worker_failed.push(false);
+                    let wt = i.slots.len();
+                    i.slots.push(Slot {
+                        state: TState::Starting,
+                        kind: ThreadKind::Worker,
+                        inst,
+                        pending: None,
+                        grant: None,
+                        cv: Arc::new(Condvar::new()),
+                        extra_bits: 0,
+                        running_since: Instant::now(),
+                    });
+                    i.worker_of_inst.push(Some(wt));
+                    i.pending_starts.push_back((a, wt));
+                    // the spawning thread now talks to this instance
+                    i.slots[parent].inst = inst;
+                    i.trace.push(Event::Hook { tid: parent, point, a: inst as u64 });
+                });
+            }
+            "worker.start" => {
+                if tid.is_some() {
+                    return;
+                }
+                let got = with_inner(|i| {
+                    // only the thread whose spawn was announced by a managed thread
+                    let pos = i.pending_starts.iter().position(|(id, _)| *id == a)?;
+                    let (_, wt) = i.pending_starts.remove(pos)?;
+                    i.slots[wt].state = TState::Running;
+                    i.slots[wt].running_since = Instant::now();
+                    Some(wt)
+                })
+                .flatten();
+                if let Some(wt) = got {
+                    interpose::set_managed(Some(wt));
+                }
+            }
+            "worker.exit" => {
+                let Some(t) = tid else { return };
+                interpose::set_managed(None);
+                with_inner(|i| {
+                    i.slots[t].state = TState::Finished;
+                    i.slots[t].pending = None;
+                    i.trace.push(Event::Hook { tid: t, point, a });
+                    decide(i);
+                });
+                CV_SCHED.notify_all();
+            }
+            "worker.failed" => {
+                let Some(t) = tid else { return };
+                with_inner(|i| {
+                    let inst = i.slots[t].inst;
+                    i.worker_failed[inst] = true;
+                    i.trace.push(Event::Hook { tid: t, point, a });
+                });
+            }
+            "worker.batched" => {
+                let Some(t) = tid else { return };
+                with_inner(|i| {
+                    let inst = i.slots[t].inst;
+                    for _ in 0..a {
+                        i.queues[inst].pop_front();
+                    }
+                    i.trace.push(Event::Hook { tid: t, point, a });
+                });
+            }
+            _ => {
+                let Some(t) = tid else { return };
+                let bits = match point {
+                    "worker.recv" => R_CHAN | R_IDLE,
+                    "worker.evictable" => R_CACHE,
+                    "worker.cb" => R_ACK,
+                    "caller.send" => R_CHAN | R_IDLE,
+                    // pure bookkeeping points: recorded, not scheduling points
+                    // (done_seq is only read by wait_worker_idle, which the
+                    // harness models by the WaitIdle gate; the non-flush
+                    // request handlers gate at their own file-system calls)
+                    "worker.done" | "worker.nonflush" => {
+                        with_inner(|i| i.trace.push(Event::Hook { tid: t, point, a }));
+                        return;
+                    }
+                    _ => 0,
+                };
+                let _ = gate(t, Pending { point: Point::Hook(point, a), res: Res::bits(bits), call: None });
+                with_inner(|i| i.trace.push(Event::Hook { tid: t, point, a }));
+            }
+        }
+    }
+}
+
+/// Harness-level gate before an operation of a managed caller/reader thread.
+pub fn op_gate(label: &str, g: OpGate, bits: u32) {
+    let Some(tid) = interpose::managed_tid() else { return };
+    let _ = gate(tid, Pending { point: Point::Op(label.to_string(), g), res: Res::bits(bits), call: None });
+}
+
+pub fn set_extra_bits(bits: u32) {
+    if let Some(tid) = interpose::managed_tid() {
+        with_inner(|i| i.slots[tid].extra_bits = bits);
+    }
+}
+
+pub fn mark_sender_dropped(inst: usize) {
+    with_inner(|i| {
+        if inst < i.sender_dropped.len() {
+            i.sender_dropped[inst] = true;
+        }
+    });
+}
+
+pub fn current_inst() -> usize {
+    let tid = interpose::managed_tid().unwrap_or(0);
+    with_inner(|i| i.slots[tid].inst).unwrap_or(0)
+}
+
+pub fn push_event(e: Event) {
+    with_inner(|i| i.trace.push(e));
+}
+
+pub fn push_violation(v: crate::report::Violation) {
+    with_inner(|i| i.violations.push(v));
+}
+
+// ---- scheduler side ----------------------------------------------------------
+
+#[derive(Clone, Debug)]
+pub struct Enabled {
+    pub tid: usize,
+    pub label: String,
+    pub res: Res,
+    pub fault: Fault,
+    /// thread kind and fs call (for fault placement decisions)
+    pub kind: ThreadKind,
+    pub call_kind: Option<FsKind>,
+    pub call_len: usize,
+}
+
+pub trait Chooser {
+    /// `enabled` is in canonical order (ascending thread id, normal variant
+    /// first). Returns the index of the transition to run, or None to stop
+    /// exploring this execution (it is then drained with the first enabled).
+    fn choose(&mut self, step: usize, enabled: &[Enabled]) -> Option<usize>;
+    /// fault variants to offer for a pending fs call (besides Fault::None)
+    fn fault_variants(&self, _kind: ThreadKind, _call: &FsCall) -> Vec<Fault> {
+        vec![]
+    }
+}
+
+pub struct ExecResult {
+    pub trace: Vec<Event>,
+    pub steps: usize,
+    pub deadlock: Option<String>,
+    pub degraded: bool,
+    pub violations: Vec<crate::report::Violation>,
+    pub worker_failed: Vec<bool>,
+    /// per step: labels of every parked thread's pending transition
+    pub pendings: Vec<Vec<(usize, Pending)>>,
+    /// per step: index into `trace` at the moment of the decision
+    pub trace_pos: Vec<usize>,
+    pub hung: Option<String>,
+}
+
+pub type ThreadBody = Box<dyn FnOnce() + Send + 'static>;
+
+const PARK_TIMEOUT: Duration = Duration::from_secs(20);
+const BLOCKED_AFTER: Duration = Duration::from_millis(300);
+
+fn enabled_now(i: &Inner, ch: &dyn Chooser) -> Vec<Enabled> {
+    let mut v = vec![];
+    for (tid, s) in i.slots.iter().enumerate() {
+        if s.state != TState::Parked {
+            continue;
+        }
+        let Some(p) = &s.pending else { continue };
+        let en = match &p.point {
+            Point::Hook("worker.recv", _) => !i.queues[s.inst].is_empty() || i.sender_dropped[s.inst],
+            Point::Op(_, OpGate::WaitAck(id)) => i.trace.iter().any(|e| matches!(e, Event::Ack(a) if a.id() == *id)),
+            Point::Op(_, OpGate::WaitIdle(inst)) => match i.worker_of_inst.get(*inst).copied().flatten() {
+                None => true,
+                Some(wt) => {
+                    let ws = &i.slots[wt];
+                    ws.state == TState::Finished
+                        || (ws.state == TState::Parked
+                            && matches!(ws.pending.as_ref().map(|p| &p.point), Some(Point::Hook("worker.recv", _)))
+                            && i.queues[*inst].is_empty())
+                }
+            },
+            _ => true,
+        };
+        if !en {
+            continue;
+        }
+        let mut res = p.res.clone();
+        if let Point::Hook("worker.recv", _) = &p.point {
+            // recv takes the head of the queue; if the head is a Write it also
+            // drains the following Writes up to and including the first other
+            // request. A send appends at the tail, so it only matters to this
+            // recv if the drain would run off the end of the queue.
+            let q = &i.queues[s.inst];
+            let write = raft_log::verif_hooks::REQ_WRITE;
+            let absorbs_tail = q.is_empty() || q.iter().all(|k| *k == write);
+            if !absorbs_tail {
+                res.bits &= !R_CHAN;
+            }
+        }
+        let base = Enabled {
+            tid,
+            label: p.label(),
+            res,
+            fault: Fault::None,
+            kind: s.kind,
+            call_kind: p.call.as_ref().map(|c| c.kind.clone()),
+            call_len: p.call.as_ref().map(|c| c.len).unwrap_or(0),
+        };
+        v.push(base.clone());
+        if let Some(c) = &p.call {
+            for f in ch.fault_variants(s.kind, c) {
+                let mut e = base.clone();
+                e.fault = f;
+                e.label = format!("{}!{:?}", e.label, f);
+                v.push(e);
+            }
+        }
+    }
+    v
+}
+
+/// Runs one execution: spawns the given managed threads; they schedule each
+/// other (baton passing) until all have finished. This thread supervises:
+/// it times out hangs and classifies threads blocked in the kernel.
+pub fn run_execution(bodies: Vec<(ThreadKind, ThreadBody)>, chooser: &mut dyn Chooser) -> ExecResult {
+    static INSTALL: std::sync::Once = std::sync::Once::new();
+    INSTALL.call_once(|| raft_log::verif_hooks::install(Some(Arc::new(HookProbe))));
+
+    // erase the borrow's lifetime; see ChooserPtr
+    let chp = ChooserPtr(unsafe { std::mem::transmute::<*mut (dyn Chooser + '_), *mut (dyn Chooser + 'static)>(chooser as *mut dyn Chooser) });
+    {
+        let mut g = lock();
+        let mut inner = Inner::default();
+        for (kind, _) in &bodies {
+            inner.slots.push(Slot {
+                state: TState::Starting,
+                kind: *kind,
+                inst: 0,
+                pending: None,
+                grant: None,
+                cv: Arc::new(Condvar::new()),
+                extra_bits: 0,
+                running_since: Instant::now(),
+            });
+        }
+        inner.chooser = Some(chp);
+        *g = Some(inner);
+    }
+    ACTIVE.store(true, Ordering::Release);
+    let mut handles = vec![];
+    for (tid, (_, body)) in bodies.into_iter().enumerate() {
+        let h = std::thread::Builder::new()
+            .name(format!("vx-managed-{}", tid))
+            .spawn(move || {
+                interpose::set_managed(Some(tid));
+                with_inner(|i| {
+                    i.slots[tid].state = TState::Running;
+                    i.slots[tid].running_since = Instant::now();
+                });
+                let r = std::panic::catch_unwind(std::panic::AssertUnwindSafe(body));
+                if let Err(p) = r {
+                    let msg = crate::sut::panic_msg(p);
+                    with_inner(|i| i.trace.push(Event::Note(format!("managed thread {} panicked: {}", tid, msg))));
+                }
+                interpose::set_managed(None);
+                with_inner(|i| {
+                    i.slots[tid].state = TState::Finished;
+                    i.slots[tid].pending = None;
+                    decide(i);
+                });
+                CV_SCHED.notify_all();
+            })
+            .expect("spawn managed thread");
+        handles.push(h);
+    }
+
+    let mut hung = None;
+    let mut g = lock();
+    let mut last_steps = 0usize;
+    let mut last_progress = Instant::now();
+    loop {
+        let inner = g.as_mut().unwrap();
+        if inner.over {
+            break;
+        }
+        if inner.steps != last_steps {
+            last_steps = inner.steps;
+            last_progress = Instant::now();
+        }
+        // kernel-blocked fallback: a thread that keeps running while everybody
+        // else is parked is classified as blocked and the others carry on
+        let now = Instant::now();
+        let others_parked = !inner.slots.iter().any(|s| s.state == TState::Starting);
+        let slow: Vec<usize> = inner
+            .slots
+            .iter()
+            .enumerate()
+            .filter(|(_, s)| s.state == TState::Running && now.duration_since(s.running_since) > BLOCKED_AFTER)
+            .map(|(t, _)| t)
+            .collect();
+        let running = inner.slots.iter().filter(|s| s.state == TState::Running).count();
+        if others_parked && !slow.is_empty() && slow.len() == running {
+            for t in slow {
+                inner.slots[t].state = TState::Blocked;
+                inner.degraded = true;
+                inner.trace.push(Event::Note(format!("thread {} classified as blocked in the kernel", t)));
+            }
+            decide(inner);
+            continue;
+        }
+        if last_progress.elapsed() > PARK_TIMEOUT {
+            hung = Some(format!(
+                "no progress for {:?}; thread states {:?}",
+                PARK_TIMEOUT,
+                inner.slots.iter().map(|s| (s.kind, s.state, s.pending.as_ref().map(|p| p.label()))).collect::<Vec<_>>()
+            ));
+            break;
+        }
+        let (ng, _) = match CV_SCHED.wait_timeout(g, Duration::from_millis(50)) {
+            Ok(x) => x,
+            Err(p) => p.into_inner(),
+        };
+        g = ng;
+    }
+    let inner = g.take().unwrap();
+    drop(g);
+    ACTIVE.store(false, Ordering::Release);
+    if hung.is_none() && inner.deadlock.is_none() {
+        for h in handles {
+            let _ = h.join();
+        }
+    }
+    ExecResult {
+        trace: inner.trace,
+        steps: inner.steps,
+        deadlock: inner.deadlock,
+        degraded: inner.degraded,
+        violations: inner.violations,
+        worker_failed: inner.worker_failed,
+        pendings: inner.pendings,
+        trace_pos: vec![],
+        hung,
+    }
+}
+
+// ---------------------------------------------------------------------------
+// Explorer: stateless depth-first search with sleep sets
+// ---------------------------------------------------------------------------
+
+#[derive(Clone, Debug)]
+struct Frame {
+    /// (tid, label) of every enabled transition, canonical order
+    enabled: Vec<(usize, String, Res)>,
+    chosen: usize,
+    /// transitions (tid,label) asleep in this node
+    sleep: Vec<(usize, String)>,
+    /// indices already explored from this node (before `chosen`)
+    done: Vec<usize>,
+}
+
+#[derive(Default, Clone, Debug)]
+pub struct ExploreStats {
+    pub executions: u64,
+    pub sleep_blocked: u64,
+    pub complete: u64,
+    pub max_steps: usize,
+    pub faults_injected: u64,
+}
+
+pub struct Dfs {
+    stack: Vec<Frame>,
+    /// length of the prefix being replayed in the current execution
+    replay_len: usize,
+    pub stats: ExploreStats,
+    pub max_faults: usize,
+    faults_used: usize,
+    pub fault_policy: FaultPolicy,
+    pub blocked_now: bool,
+    pub divergence: Option<String>,
+    /// preemption bound (None = unbounded)
+    pub preempt_bound: Option<usize>,
+    last_tid: Option<usize>,
+    preemptions: usize,
+}
+
+#[derive(Clone, Copy, Debug, PartialEq, Eq)]
+pub enum FaultPolicy {
+    None,
+    /// EIO on worker write/fdatasync
+    WorkerEio,
+    /// EIO + short write + EINTR on worker write/fdatasync
+    WorkerAll,
+    /// EIO on worker fdatasync only
+    WorkerSyncEio,
+}
+
+impl Dfs {
+    pub fn new(max_faults: usize, fault_policy: FaultPolicy) -> Self {
+        Dfs {
+            stack: vec![],
+            replay_len: 0,
+            stats: ExploreStats::default(),
+            max_faults,
+            faults_used: 0,
+            fault_policy,
+            blocked_now: false,
+            divergence: None,
+            preempt_bound: None,
+            last_tid: None,
+            preemptions: 0,
+        }
+    }
+
+    pub fn begin_execution(&mut self) {
+        self.replay_len = self.stack.len();
+        self.faults_used = 0;
+        self.blocked_now = false;
+        self.last_tid = None;
+        self.preemptions = 0;
+        self.stats.executions += 1;
+    }
+
+    /// The schedule of the current/last execution as (tid, label) choices.
+    pub fn schedule(&self) -> Vec<(usize, String)> {
+        self.stack.iter().map(|f| (f.enabled[f.chosen].0, f.enabled[f.chosen].1.clone())).collect()
+    }
+
+    /// After an execution: advance to the next unexplored branch. Returns
+    /// false when the search space is exhausted.
+    pub fn next_branch(&mut self) -> bool {
+        if self.blocked_now {
+            self.stats.sleep_blocked += 1;
+        } else {
+            self.stats.complete += 1;
+        }
+        self.stats.max_steps = self.stats.max_steps.max(self.stack.len());
+        while let Some(top) = self.stack.last_mut() {
+            let cur = top.chosen;
+            top.done.push(cur);
+            let (ctid, clabel) = (top.enabled[cur].0, top.enabled[cur].1.clone());
+            // the transition just explored sleeps for its later siblings
+            top.sleep.push((ctid, clabel));
+            let mut next = None;
+            for i in 0..top.enabled.len() {
+                if top.done.contains(&i) {
+                    continue;
+                }
+                let (t, l, _) = &top.enabled[i];
+                if top.sleep.iter().any(|(st, sl)| st == t && sl == l) {
+                    continue;
+                }
+                next = Some(i);
+                break;
+            }
+            if let Some(i) = next {
+                top.chosen = i;
+                return true;
+            }
+            self.stack.pop();
+        }
+        false
+    }
+}
+
+fn is_fault_label(l: &str) -> bool {
+    l.contains('!')
+}
+
+impl Chooser for Dfs {
+    fn fault_variants(&self, kind: ThreadKind, call: &FsCall) -> Vec<Fault> {
+        if self.faults_used >= self.max_faults || kind != ThreadKind::Worker {
+            return vec![];
+        }
+        match (self.fault_policy, &call.kind) {
+            (FaultPolicy::None, _) => vec![],
+            (FaultPolicy::WorkerEio, FsKind::Write | FsKind::Fdatasync) => vec![Fault::Eio],
+            (FaultPolicy::WorkerSyncEio, FsKind::Fdatasync) => vec![Fault::Eio],
+            (FaultPolicy::WorkerAll, FsKind::Write) => {
+                let mut v = vec![Fault::Eio, Fault::Eintr];
+                if call.len > 1 {
+                    v.push(Fault::Short(call.len / 2));
+                }
+                v
+            }
+            (FaultPolicy::WorkerAll, FsKind::Fdatasync) => vec![Fault::Eio, Fault::Eintr],
+            _ => vec![],
+        }
+    }
+
+    fn choose(&mut self, step: usize, enabled: &[Enabled]) -> Option<usize> {
+        let cur: Vec<(usize, String, Res)> = enabled.iter().map(|e| (e.tid, e.label.clone(), e.res.clone())).collect();
+        let idx;
+        if step < self.replay_len {
+            // replaying a stored prefix: the enabled set must be identical
+            let f = &self.stack[step];
+            let same = f.enabled.len() == cur.len() && f.enabled.iter().zip(cur.iter()).all(|(a, b)| a.0 == b.0 && a.1 == b.1);
+            if !same {
+                self.divergence = Some(format!(
+                    "step {}: recorded enabled set {:?} != replayed {:?}",
+                    step,
+                    f.enabled.iter().map(|x| (x.0, x.1.clone())).collect::<Vec<_>>(),
+                    cur.iter().map(|x| (x.0, x.1.clone())).collect::<Vec<_>>()
+                ));
+                return None;
+            }
+            idx = f.chosen;
+        } else {
+            // new node: inherit the sleep set from the parent
+            let sleep: Vec<(usize, String)> = match self.stack.last() {
+                None => vec![],
+                Some(parent) => {
+                    let cres = &parent.enabled[parent.chosen].2;
+                    let ctid = parent.enabled[parent.chosen].0;
+                    parent
+                        .sleep
+                        .iter()
+                        .filter(|(t, l)| {
+                            if *t == ctid {
+                                return false;
+                            }
+                            // still pending with the same label and independent of the executed transition
+                            match parent.enabled.iter().find(|e| e.0 == *t && &e.1 == l) {
+                                Some(e) => e.2.independent(cres) && cur.iter().any(|c| c.0 == *t && &c.1 == l),
+                                None => false,
+                            }
+                        })
+                        .cloned()
+                        .collect()
+                }
+            };
+            let mut pick = None;
+            for (i, c) in cur.iter().enumerate() {
+                if sleep.iter().any(|(t, l)| *t == c.0 && l == &c.1) {
+                    continue;
+                }
+                if let Some(b) = self.preempt_bound {
+                    // switching away from a still-enabled thread costs one
+                    if let Some(lt) = self.last_tid {
+                        if c.0 != lt && cur.iter().any(|x| x.0 == lt) && self.preemptions >= b {
+                            continue;
+                        }
+                    }
+                }
+                pick = Some(i);
+                break;
+            }
+            let Some(i) = pick else {
+                self.blocked_now = true;
+                return None;
+            };
+            self.stack.push(Frame { enabled: cur.clone(), chosen: i, sleep, done: vec![] });
+            idx = i;
+        }
+        let e = &enabled[idx];
+        if is_fault_label(&e.label) {
+            self.faults_used += 1;
+            self.stats.faults_injected += 1;
+        }
+        if let Some(lt) = self.last_tid {
+            if e.tid != lt && enabled.iter().any(|x| x.tid == lt) {
+                self.preemptions += 1;
+            }
+        }
+        self.last_tid = Some(e.tid);
+        Some(idx)
+    }
+}
+
+/// Replays a fixed schedule given as (tid,label) choices; after its end the
+/// first enabled transition is taken.
+pub struct Replay {
+    pub schedule: Vec<(usize, String)>,
+    pub divergence: Option<String>,
+    pub max_faults: usize,
+    pub fault_policy: FaultPolicy,
+}
+
+impl Chooser for Replay {
+    fn fault_variants(&self, kind: ThreadKind, call: &FsCall) -> Vec<Fault> {
+        let d = Dfs::new(self.max_faults, self.fault_policy);
+        d.fault_variants(kind, call)
+    }
+    fn choose(&mut self, step: usize, enabled: &[Enabled]) -> Option<usize> {
+        if let Some((t, l)) = self.schedule.get(step) {
+            match enabled.iter().position(|e| e.tid == *t && &e.label == l) {
+                Some(i) => Some(i),
+                None => {
+                    self.divergence = Some(format!("step {}: {}:{} not enabled; enabled: {:?}", step, t, l, enabled.iter().map(|e| (e.tid, e.label.clone())).collect::<Vec<_>>()));
+                    None
+                }
+            }
+        } else {
+            Some(0)
+        }
+    }
+}
+
+// ---------------------------------------------------------------------------
+// Explorer self-tests (machinery only; run by `vx selftest`)
+// ---------------------------------------------------------------------------
+
+fn toy_gate(label: &'static str, res: Res) {
+    let Some(tid) = interpose::managed_tid() else { return };
+    let _ = gate(tid, Pending { point: Point::Op(label.to_string(), OpGate::Always), res, call: None });
+}
+
+/// Explores two toy threads with `n` steps each; `dependent` makes all steps
+/// conflict. Returns (complete executions, sleep-blocked executions, lost
+/// updates observed).
+pub fn toy_explore(n: usize, dependent: bool, lost_update: bool) -> (u64, u64, u64) {
+    use std::sync::atomic::AtomicU64;
+    let mut dfs = Dfs::new(0, FaultPolicy::None);
+    let mut lost = 0u64;
+    loop {
+        dfs.begin_execution();
+        let shared = Arc::new(AtomicU64::new(0));
+        let mk = |me: usize, shared: Arc<AtomicU64>| -> ThreadBody {
+            Box::new(move || {
+                for k in 0..n {
+                    let res = if dependent { Res::bits(R_CACHE) } else { Res { bits: 0, files: vec![format!("f{}-{}", me, k)] } };
+                    if lost_update {
+                        toy_gate("load", Res::bits(R_DONE));
+                        let v = shared.load(Ordering::SeqCst);
+                        toy_gate("store", Res::bits(R_DONE));
+                        shared.store(v + 1, Ordering::SeqCst);
+                    } else {
+                        toy_gate("step", res);
+                    }
+                }
+            })
+        };
+        // Contender threads carry no implicit resources
+        let r = run_execution(vec![(ThreadKind::Contender, mk(0, shared.clone())), (ThreadKind::Contender, mk(1, shared.clone()))], &mut dfs);
+        assert!(r.deadlock.is_none() && r.hung.is_none(), "toy execution failed");
+        if lost_update && !dfs.blocked_now && shared.load(Ordering::SeqCst) != 2 * n as u64 {
+            lost += 1;
+        }
+        if !dfs.next_branch() {
+            break;
+        }
+    }
+    (dfs.stats.complete, dfs.stats.sleep_blocked, lost)
+}
